@@ -57,59 +57,13 @@ def run(ctx):
                                    "the loop is exhausted (accept) is never returned from inside the loop")
     f = w.fn(CL + "<impl ruma_html::sanitizer_config::SanitizerConfig>::node_action")
     body = f["body"]
-    cfg = M.Cfg(body)
-    loops = cfg.natural_loops()
     n_loops = 0
-
-    def ret_value_from(b, seen=None):
-        """Constant variant assigned to _0 on the straight-line way from block b to the return, or None."""
-        seen = seen or set()
-        val_ = None
-        cur = b
-        for _ in range(12):
-            if cur in seen:
-                return None
-            seen.add(cur)
-            blk = body["blocks"][cur]
-            for st in blk["s"]:
-                if st[0] == "=" and st[1] == 0 and st[2][0] == "agg" and st[2][1].get("k") == "adt":
-                    val_ = st[2][1]["variant"]
-            t = blk["t"]
-            if t[0] == "ret":
-                return val_
-            succ = cfg.succ[cur]
-            if len(succ) != 1:
-                return val_ if t[0] == "ret" else ("?" if val_ else None) if False else (val_ if all(body["blocks"][s]["t"][0] == "ret" for s in succ) else None)
-            cur = succ[0]
-        return None
-    for head, blocks in sorted(loops.items()):
-        # attribute loops: the header (or a block of the loop) calls Iterator::next on a slice::Iter<Attribute> / BTreeSet iter of attributes
-        nexts = [b for b in blocks if body["blocks"][b]["t"][0] == "call" and M.callee_name(body["blocks"][b]["t"][1]).endswith("Iterator>::next")
-                 and "Attribute" in (body["blocks"][b]["t"][1].get("fnargs") or [""])[0]]
-        if not nexts:
-            continue
+    for exhausted, vals, bad in early_accept_loops(f, lambda c: "Attribute" in (c.get("fnargs") or [""])[0]):
         n_loops += 1
-        # exits: edges from a loop block to a non-loop block
-        in_loop_returns, exhausted = [], None
-        for b in blocks:
-            for s_ in cfg.succ[b]:
-                if s_ in blocks:
-                    continue
-                v = ret_value_from(s_)
-                # the exhausted edge is the `None` arm of the switch on next()'s result
-                t = body["blocks"][b]["t"]
-                is_exhaust = t[0] == "switch" and any(body["blocks"][nb]["t"][1].get("dest") is not None and
-                                                      M.pl_local(t[1].get("pl", 0)) is not None for nb in nexts) and b in [cfg.succ[nb][0] for nb in nexts if cfg.succ[nb]]
-                if is_exhaust and s_ == [bb for val0, bb in t[2] if val0 == 0][0:1][0] if t[0] == "switch" and [bb for val0, bb in t[2] if val0 == 0] else False:
-                    exhausted = v
-                else:
-                    in_loop_returns.append((v, t[5] if t[0] == "switch" else (t[1].get("line") if t[0] == "call" else None), s_))
-        vals = {v for v, _, _ in in_loop_returns if v}
         key = f"C14.all-attributes:loop#{n_loops}"
         if exhausted is None:
             ctx.ok("C14.all-attributes", key + ":exists-loop", w.where(f), "loop result is not a verdict by itself (falls through)", nontrivial=False)
             continue
-        bad = [(v, line) for v, line, _ in in_loop_returns if v == exhausted and len(vals - {exhausted}) > 0]
         ctx.check(not bad, "C14.all-attributes", key + f":exhausted={exhausted}", w.where(f, bad[0][1] if bad else None),
                   ok_msg=f"in-loop verdicts {sorted(vals)}, exhausted verdict {exhausted}",
                   bad_msg=f"the loop over attributes returns the accepting verdict NodeAction::{exhausted} from inside the loop (line {bad[0][1] if bad else '?'}): "
@@ -217,5 +171,55 @@ def run(ctx):
                 if not any(allowed):
                     bad.append([s_[:60] for s_, t in conds][:6])
         ctx.check(bool(rem) and bool(keep) and not bad, "C14.attributes", "C14.attributes:whitelist", w.where(main), bad_msg=f"kept without being allowed: {bad[:1]}")
+    from . import controls
+    controls.early_accept(ctx, "C14.all-attributes")
     ctx.assumptions += ["html5ever parser/serializer pair: what a parser sees in the output is not decided", "spec lists as in DESIGN.md Appendix A.7"]
     ctx.samples += [{"input": "<a class=\"x\" href=\"javascript:alert(1)\">", "rule": "C14.all-attributes", "expected": "href checked although class has no scheme list"}]
+
+
+def early_accept_loops(f, is_elem_next):
+    """A6(i): for each loop of `f` driven by an Iterator::next call selected by `is_elem_next`, yield
+    (verdict on the exhausted edge | None, set of verdicts returned from inside the loop, [(verdict, line)] in-loop returns equal to the exhausted verdict
+    while another verdict is also returned from inside = early accept in a for-all loop)."""
+    body = f["body"]
+    cfg = M.Cfg(body)
+
+    def ret_value_from(b):
+        seen, val_, cur = set(), None, b
+        for _ in range(12):
+            if cur in seen:
+                return None
+            seen.add(cur)
+            blk = body["blocks"][cur]
+            for st in blk["s"]:
+                if st[0] == "=" and st[1] == 0 and st[2][0] == "agg" and st[2][1].get("k") == "adt":
+                    val_ = st[2][1]["variant"]
+            t = blk["t"]
+            if t[0] == "ret":
+                return val_
+            succ = cfg.succ[cur]
+            if len(succ) != 1:
+                return val_ if all(body["blocks"][s_]["t"][0] == "ret" for s_ in succ) else None
+            cur = succ[0]
+        return None
+    for head, blocks in sorted(cfg.natural_loops().items()):
+        nexts = [b for b in blocks if body["blocks"][b]["t"][0] == "call" and M.callee_name(body["blocks"][b]["t"][1]).endswith("Iterator>::next")
+                 and is_elem_next(body["blocks"][b]["t"][1])]
+        if not nexts:
+            continue
+        in_loop_returns, exhausted = [], None
+        for b in blocks:
+            for s_ in cfg.succ[b]:
+                if s_ in blocks:
+                    continue
+                v = ret_value_from(s_)
+                t = body["blocks"][b]["t"]
+                after_next = b in [cfg.succ[nb][0] for nb in nexts if cfg.succ[nb]]
+                none_arm = [bb for val0, bb in t[2] if val0 == 0] if t[0] == "switch" else []
+                if after_next and none_arm and s_ == none_arm[0]:
+                    exhausted = v
+                else:
+                    in_loop_returns.append((v, t[5] if t[0] == "switch" else (t[1].get("line") if t[0] == "call" else None)))
+        vals = {v for v, _ in in_loop_returns if v}
+        bad = [(v, line) for v, line in in_loop_returns if exhausted is not None and v == exhausted and len(vals - {exhausted}) > 0]
+        yield exhausted, vals, bad
